@@ -1913,10 +1913,10 @@ func runAff9(m *Model, r *RuleResult) {
 				bad = append(bad, m.Pos(at.Pos())+": "+field+" not set")
 				return
 			}
-			switch x := v.(type) {
+			switch x := ast.Unparen(v).(type) {
 			case *ast.IndexExpr:
-				s := strings.ReplaceAll(types.ExprString(x.Index), " ", "")
-				base := strings.ReplaceAll(types.ExprString(x.X), " ", "")
+				s := exprKeyNoParens(x.Index)
+				base := exprKeyNoParens(x.X)
 				want := wantIdx
 				if wantIdx != "0" {
 					want = "len(" + base + ")-1"
@@ -1931,7 +1931,7 @@ func runAff9(m *Model, r *RuleResult) {
 								return true
 							}
 							if be, isB := ifs.Cond.(*ast.BinaryExpr); isB && be.Op == token.EQL {
-								l := strings.ReplaceAll(types.ExprString(be.X), " ", "")
+								l := exprKeyNoParens(be.X)
 								if rv, isC2 := info.Types[be.Y]; isC2 && rv.Value != nil && l == "len("+base+")" {
 									if rv.Value.String() == fmt.Sprint(mustInt(tv.Value.String())+1) {
 										okIdx = true
@@ -2257,7 +2257,7 @@ func paramActuals(m *Model, fd *ast.FuncDecl, name string) []string {
 				if !ok || calleeObj(p.TypesInfo, call) != obj || idx >= len(call.Args) {
 					return true
 				}
-				out = append(out, strings.ReplaceAll(types.ExprString(call.Args[idx]), " ", ""))
+				out = append(out, exprKeyNoParens(call.Args[idx]))
 				return true
 			})
 		}
@@ -2285,4 +2285,36 @@ func neighbourOffset(t, key string) (int, bool) {
 		}
 	}
 	return 0, false
+}
+
+var redundantParens = regexp.MustCompile(`\(([A-Za-z_][A-Za-z_0-9]*(\.[A-Za-z_][A-Za-z_0-9]*)*)\)`)
+
+// exprKeyNoParens: the expression's text without blanks and without parentheses around plain names (`len((path))-1` is
+// `len(path)-1`; the normalised view parenthesises substituted arguments). A call's own parentheses are kept.
+func exprKeyNoParens(e ast.Expr) string {
+	s := strings.ReplaceAll(types.ExprString(ast.Unparen(e)), " ", "")
+	for i := 0; i < 4; i++ {
+		t := redundantParens.ReplaceAllStringFunc(s, func(m string) string { return m })
+		// keep "f(x)" calls: only strip a parenthesised name that is not preceded by an identifier character or ')' / ']'
+		var sb strings.Builder
+		last := 0
+		for _, loc := range redundantParens.FindAllStringIndex(s, -1) {
+			if loc[0] > 0 {
+				c := s[loc[0]-1]
+				if c == '_' || c == ')' || c == ']' || (c >= '0' && c <= '9') || (c >= 'a' && c <= 'z') || (c >= 'A' && c <= 'Z') {
+					continue
+				}
+			}
+			sb.WriteString(s[last:loc[0]])
+			sb.WriteString(s[loc[0]+1 : loc[1]-1])
+			last = loc[1]
+		}
+		sb.WriteString(s[last:])
+		_ = t
+		if sb.String() == s {
+			break
+		}
+		s = sb.String()
+	}
+	return s
 }
